@@ -8,12 +8,16 @@ column, vs the python least-model oracle gen/c20_spec.py and the life model Inde
 ascent_par! programs (lattice and plain relations, 10^4-10^5 keys each derived several times in one iteration) constructed under one
 pool (1..16 threads, nested, or the main thread with a global pool of 1 / 2 / default threads) and run - also in stages, and twice -
 under another, vs the python specification of gen/par_contention.py (one row per key with the least upper bound; one row per
-tuple); the key mutex of the lattice head update as an explicit requirement: Engine/ParLatLocks*.v.  corpus/C20.jsonl runs first."""
+tuple); the key mutex of the lattice head update as an explicit requirement: Engine/ParLatLocks*.v; (6) gen/c20_shared.py: 50-100
+instances of 3 generated program types (parallel and serial mixed) whose run() calls are themselves rayon JOBS OF ONE POOL of 2-8
+threads (par_iter / scope / scope_fifo / join tree / the global pool / nested install), several rounds, each instance vs the least
+model of its program, with a no-progress watchdog (a configuration that stops making progress is the failing input `hang`).
+corpus/C20.jsonl runs first."""
 import json
 import os
 import re
 
-from .. import c20_contention, c20_pools, c20_spec, dl, engine_tie, gen_dl, lib, prog
+from .. import c20_contention, c20_pools, c20_shared, c20_spec, dl, engine_tie, gen_dl, lib, prog
 
 PROP = "C20"
 PROP_FILE = "Props/C20.v"
@@ -116,6 +120,10 @@ def replay_case(path):
         pc = c20_contention.replay(cs)
         return dict(evaluations=pc["evaluations"], distinct_nontrivial=pc["distinct"], rule="replay of one pool-contention configuration (12 repetitions, + 12 unperturbed: a concurrent schedule is not reproducible)",
                     samples=[], distribution=pc["distribution"], mismatches=pc["mismatches"])
+    if cs.get("family") == c20_shared.FAMILY:
+        ps = c20_shared.replay(cs)
+        return dict(evaluations=ps["evaluations"], distinct_nontrivial=ps["distinct"], rule="replay of one shared-pool configuration (6 repetitions: a work-stealing schedule is not reproducible)",
+                    samples=[], distribution=ps["distribution"], mismatches=ps["mismatches"])
     if cs.get("family") == "pools" and cs.get("prog"):
         p = dict(cs["prog"], rels=[tuple(x) for x in cs["prog"]["rels"]])
         inp = {k: [tuple(t) for t in v] for k, v in cs["input"].items()}
@@ -212,6 +220,10 @@ def tie(tier, seed, replay):
     #     bound column: gen/c20_pools.py (corpus cases first)
     pb = c20_pools.run(tier, seed, corpus=[e for e in corpus_cases() if e.get("family") == "prebuilt"])
     mism = pb["mismatches"] + mism
+    # (6) many instances whose run() calls are rayon jobs of ONE pool (par_iter / scope / join / global pool), with a hang watchdog:
+    #     gen/c20_shared.py (before (5): it takes a few seconds)
+    psh = c20_shared.run(tier, seed, corpus=[e for e in corpus_cases() if e.get("family") == c20_shared.FAMILY])
+    mism = psh["mismatches"] + mism
     # (5) big contended programs (lattice and plain relations) constructed under one pool and run under another: gen/c20_contention.py
     #     (last: the real runs want the cores to themselves)
     pcn = c20_contention.run(tier, seed, corpus=[e for e in corpus_cases() if e.get("family") == c20_contention.FAMILY])
@@ -243,8 +255,15 @@ def tie(tier, seed, replay):
                     break
     kinds["prebuilt_index_histories"] = pb["kinds"]
     kinds["pool_contention"] = pcn["distribution"]["by_kind"]
-    return dict(evaluations=len(results) + len(distinct) + ix.get("evaluations", 0) + pb["evaluations"] + pcn["evaluations"], distinct_nontrivial=len(distinct) + pb["distinct"] + pcn["distinct"],
-                rule="pool contention: five big ascent_par! programs (lattices of integers / Dual / Set / Product with one- and two-column keys, recursion through a lattice, plain relations with projections and a join; "
+    kinds["shared_pool"] = psh["distribution"]["by_mode"]
+    return dict(evaluations=len(results) + len(distinct) + ix.get("evaluations", 0) + pb["evaluations"] + pcn["evaluations"] + psh["evaluations"], distinct_nontrivial=len(distinct) + pb["distinct"] + pcn["distinct"] + psh["distinct"],
+                rule="shared pool: worlds of 50-100 instances of 3 generated program types (graph programs with fixpoints of 4-18 iterations: transitive closure left / right / non-linear, reachability, later strata with "
+                     "count / negation / projection; lattice programs: least distances Dual<i32>, capped longest hops; random gen_dl programs), ascent_par! and ascent! mixed, whose run() calls are rayon JOBS OF ONE POOL of "
+                     "2-8 threads (par_iter_mut, with_max_len(1), scope + spawn, scope_fifo + spawn_fifo, a binary rayon::join tree, the global pool from a plain thread, the pool installed inside an outer pool), values "
+                     "constructed inside their job / on a plain thread / as jobs of the pool in an earlier pass, 12-20 rounds (quick) with fresh values; every instance must RETURN (watchdog: no job made progress for 10 s = "
+                     "failing input `hang`, with the instances inside run() and the CPU time used while stuck) and hold the least model of its program (gen/c20_spec.py; plain iteration of the lattice equations) in "
+                     "every round; distinct = (world, configuration) that completed; "
+                     "pool contention: five big ascent_par! programs (lattices of integers / Dual / Set / Product with one- and two-column keys, recursion through a lattice, plain relations with projections and a join; "
                      "10^3-10^5 keys or tuples, each derived 3-48 times in one iteration) whose value is constructed under a pool of a threads (1..16), nested pools, or the main thread with a global pool of 1 / 2 / default "
                      "threads, and run under another pool of b threads (1 -> many, many -> 1, a <> b, nested, the main thread, the same pools as control), also in two stages (a part of the rows run under one pool, then all "
                      "rows under another) and twice; after every full run a lattice relation must hold one row per key with the least upper bound of the derivable values and a plain relation one row per derivable tuple "
@@ -260,8 +279,14 @@ def tie(tier, seed, replay):
                               "gen/c20_spec.py (python least-model evaluator, the oracle for inputs of hundreds of rows): compared with Engine/Sem.v strat_fix on the small random cases of every run",
                               "Index/NoIndexLife.v vs generated code: the history translation of gen/c20_pools.py (rows = ids, round-robin workers, one SCC visit of the big relation); the theorem covers every worker assignment and split into rounds",
                               "gen/par_contention.spec (python specification of the five big programs) and the two drivers harness/par_contention, harness/c20_contention holding the same ascent_par! blocks (compared on every run); a concurrent schedule is not reproducible: a violation in the pool-contention family is a sampled one (measured on seed C20_lattice_insertion_locks_sized_at_construction: every lattice case fails in every run)",
+                              "gen/c20_shared.py: the generated driver (src of MAIN_RS: a pure driver with a no-progress watchdog), the python fixpoint of the two lattice program shapes; a work-stealing schedule is not "
+                              "reproducible: a violation of the shared-pool family is a sampled one (measured on seed C20_timing_counter_mutex_held_across_rayon: 8-11 of the 15 quick configurations hang in each of 8 runs of the family (seeds 0-7), the corpus configuration in 6 of 6 repetitions, "
+                              "every configuration with >= 3 threads and scope / scope_fifo in round 0-3)",
+                              "NO LOCK MODEL in Coq: Index/* and Engine/* model one instance; the process-wide statistics statics (STATIC_ALLOW / WRITE_ONLY) are outside the model, their not taking part in synchronisation "
+                              "(no lock, no wait) is checked by the source scan (any use other than `NAME += ..` is reported) and, dynamically, by the shared-pool family only",
                               "RESIDUE: data races on the `static mut` timing statistics are UB in principle; they are not observable in results"],
                 assumptions=["rayon::current_thread_index() < number of threads of the pool the call runs in"],
                 extra=dict(cases_skipped_model_too_slow=nskipped, python_oracle_checked_against_coq_spec=noracle,
                            prebuilt_index_family={k: v for k, v in pb.items() if k != "mismatches"},
-                           pool_contention_family={k: v for k, v in pcn.items() if k != "mismatches"}, index_level=ix.get("extra", {}).get("index_level", {k: v for k, v in ix.items() if k in ("evaluations", "distinct_nontrivial")})))
+                           pool_contention_family={k: v for k, v in pcn.items() if k != "mismatches"},
+                           shared_pool_family={k: v for k, v in psh.items() if k != "mismatches"}, index_level=ix.get("extra", {}).get("index_level", {k: v for k, v in ix.items() if k in ("evaluations", "distinct_nontrivial")})))
